@@ -196,6 +196,9 @@ impl Worker {
             bump(&mut rm.stats, "fault.short_write", jr.wlog.short as u64);
             bump(&mut rm.stats, "fault.eintr_write", jr.wlog.eintr_calls.len() as u64);
             bump(&mut rm.stats, "fault.write_error", jr.wlog.error_fired as u64);
+            if matches!(&jr.obs.outcome, crate::job::Outcome::Panic { file, .. } if file == crate::job::INJECTED) {
+                bump(&mut rm.stats, "fault.reader_or_sink_unwinds_the_compilation", 1);
+            }
             bump(&mut rm.stats, "probe.split_utf8", jr.rlog.split_utf8 as u64);
             bump(&mut rm.stats, "probe.split_crlf", jr.rlog.split_crlf as u64);
             bump(&mut rm.stats, "probe.split_splice", jr.rlog.split_splice as u64);
